@@ -499,7 +499,7 @@ func CheckC13(v *View, st Stats) []Violation {
 	}
 	// current / update revision of this reconcile: from the status the reconcile computed
 	// (the status write if any, else the cached status, which a write-less reconcile left consistent)
-	cur, upd := v.Set.Status.CurrentRevision, v.Set.Status.UpdateRevision
+	cur, upd := v.Set.Status.CurrentRevision, v.UpdateRev
 	for _, c := range v.R.Calls {
 		if c.Res == simapi.Sets && c.Sub == "status" && c.Verb == "update" {
 			if w, ok := c.Obj.(*asv1.StatefulSet); ok {
@@ -507,9 +507,16 @@ func CheckC13(v *View, st Stats) []Violation {
 			}
 		}
 	}
+	// live = what this reconcile started with (cached status / template-mirroring revision)
+	// united with what it wrote: a rollout completing in this very reconcile still
+	// treats the outgoing current revision as live (it is trimmed by the next one).
 	live[cur], live[upd] = true, true
+	live[v.Set.Status.CurrentRevision] = true
 	if v.UpdateRev != "" {
 		live[v.UpdateRev] = true
+	}
+	if v.CurrentRev != "" {
+		live[v.CurrentRev] = true
 	}
 	// unused revisions of the set before truncation started (state after revision bookkeeping,
 	// i.e. everything listed that still exists or was deleted by this reconcile)
